@@ -93,7 +93,7 @@ Hessian<G> d2r_rminus(const Tangent<G> & e)
   const auto J = dr_expinv<G>(e);
 
   auto res = d2r_expinv<G>(e);
-  for (auto j = 0u; j < Dof<G>; ++j) {
+  for (auto j = 0u; j < e.size(); ++j) {
     res.template block<Dof<G>, Dof<G>>(0, j * e.size(), e.size(), e.size()).applyOnTheRight(J);
   }
   return res;
@@ -111,7 +111,7 @@ Eigen::Matrix<Scalar<G>, Dof<G>, Dof<G>> d2r_rminus_squarednorm(const Tangent<G>
   const TangentMap<G> J1 = dr_rminus<G>(e);   // N x N
   const Hessian<G> H1    = d2r_rminus<G>(e);  // N x (N*N)
 
-  return d2_fog(e.transpose(), Eigen::Matrix<Scalar<G>, Dof<G>, Dof<G>>::Identity(), J1, H1);
+  return d2_fog(e.transpose(), Eigen::Matrix<Scalar<G>, Dof<G>, Dof<G>>::Identity(e.size(), e.size()), J1, H1);
 }
 
 SMOOTH_END_NAMESPACE
